@@ -285,7 +285,7 @@ def install_monitors(sim):
             prev = sim.prev_last.get((name, sim.incarnation[name]), 1)
             # member set == fold of the membership commands in the log; for a compacted log the part below the log
             # start is the fold of the committed commands (ghost table G; skipped if G has a hole there)
-            base = None
+            base = base_alt = None
             if log[0][1] == 1:
                 base = sim.ctor_members[name]
             elif all(p in sim.G for p in range(2, log[0][1])):
@@ -294,12 +294,20 @@ def install_monitors(sim):
                 # command that names a node decides whether it is a member
                 below = [m for m in (membership_of(sim.G[p][0]) for p in range(2, log[0][1])) if m is not None]
                 base = fold_members(sim, sim.ctor_members[name], below, name) | {name}
+                # a snapshot received from another node carries the member set of its position, which can be OLDER than
+                # the member list this node was started with (started after 'rem X' committed at 15, then brought up to
+                # date with a snapshot taken at 14: X is a member again until entry 15 arrives). Then the base is the fold
+                # over the initial cluster. Own compaction gives the first base, an installed snapshot the second.
+                init = set('n%d' % i for i in range(sim.cfg['n']))
+                base_alt = fold_members(sim, init, below, name) | {name}
                 sim.counters['fold_checked_on_compacted_log'] += 1
             if base is not None:
                 cmds = [m for m in (membership_of(e[0]) for e in log[:]) if m is not None]
                 want = fold_members(sim, base, cmds, name)
                 have = sim.view_members(name)
-                if want != have:
+                if want != have and base_alt is not None and fold_members(sim, base_alt, cmds, name) == have:
+                    sim.counters['member_set_of_older_snapshot'] += 1
+                elif want != have:
                     # known behaviour: committed membership entries are executed again at apply time; a node that a
                     # LATER entry of the log removed (added) is then transiently re-added (re-removed)
                     applied_cmds = [m for m in (membership_of(e[0]) for e in log[:] if e[1] <= obj.raftLastApplied) if m is not None]
